@@ -502,14 +502,20 @@ func (group *Group) feedRtpPacket(pkt rtprtcp.RtpPacket) {
 		}
 
 		if !boundaryChecked {
-			switch group.sdpCtx.GetVideoPayloadTypeBase() {
-			case base.AvPacketPtAvc:
-				boundary = rtprtcp.IsAvcBoundary(pkt)
-			case base.AvPacketPtHevc:
-				boundary = rtprtcp.IsHevcBoundary(pkt)
-			default:
-				// 注意，不是avc和hevc时，直接发送
-				boundary = true
+			if group.sdpCtx == nil {
+				// the input has ended (delIn cleared the SDP) and a late packet of its RTP goroutine
+				// arrives: there is no stream description to tell a GOP start by, the session keeps waiting
+				boundary = false
+			} else {
+				switch group.sdpCtx.GetVideoPayloadTypeBase() {
+				case base.AvPacketPtAvc:
+					boundary = rtprtcp.IsAvcBoundary(pkt)
+				case base.AvPacketPtHevc:
+					boundary = rtprtcp.IsHevcBoundary(pkt)
+				default:
+					// 注意，不是avc和hevc时，直接发送
+					boundary = true
+				}
 			}
 			boundaryChecked = true
 		}
